@@ -4,13 +4,15 @@ I(n) == [k |-> "int", neg |-> FALSE, mag |-> <<n % 256, n \div 256>>]
 N(n) == [k |-> "int", neg |-> TRUE, mag |-> <<n % 256, n \div 256>>]
 NoV == [k |-> "none"]
 Op(k, p, v) == [k |-> k, p |-> p, v |-> v]
+CB(id, scope, ref) == [id |-> id, scope |-> scope, ref |-> ref, script |-> <<"nop", 0>>, reg0 |-> TRUE]
+CBS(id, scope, ref, kind, target, reg0) == [id |-> id, scope |-> scope, ref |-> ref, script |-> <<kind, target>>, reg0 |-> reg0]
 
 \* ---- protocol configurations: p1, p2 persistent uint8 in group 1, p3 read-only uint16 in group 2
 CfgA == [np |-> 3,
          type |-> <<8, 8, 9>>, ro |-> <<FALSE, FALSE, TRUE>>, pers |-> <<TRUE, TRUE, FALSE>>,
          group |-> <<1, 1, 2>>, init |-> <<<<6>>, <<7>>, <<1, 0>>>>,
-         updcbs |-> <<[id |-> 1, scope |-> "param", ref |-> 1], [id |-> 2, scope |-> "group", ref |-> 1],
-                      [id |-> 3, scope |-> "all", ref |-> 0]>>,
+         updcbs |-> <<CB(1, "param", 1), CB(2, "group", 1),
+                      CB(3, "all", 0)>>,
          default |-> <<<<5>>, <<9>>, <<1, 0>>>>, stored0 |-> <<<<>>, <<>>, <<>>>>]
 NotifsA == {[p |-> 1, v |-> <<3>>]}
 
@@ -26,15 +28,25 @@ OpsShots == {Op("getstate", 1, NoV), Op("getstate", 2, NoV), Op("store", 1, NoV)
              Op("getdefault", 1, NoV)}
 OpsShots4 == {Op("getstate", 1, NoV), Op("getstate", 2, NoV), Op("store", 1, NoV), Op("set", 1, I(9))}
 
+\* ---- update callbacks that change the registrations while an update is dispatched: on parameter 1 a one-shot
+\* (1, removes itself), a plain one (2), one that removes the group callback (3 -> 5), one that adds 6;
+\* group callback 5; all-callback 7 removes 2; 6 is added by 3... (not registered at the start)
+CfgC == [CfgA EXCEPT !.updcbs = <<CBS(1, "param", 1, "removeSelf", 0, TRUE), CBS(2, "param", 1, "nop", 0, TRUE),
+                                   CBS(3, "param", 1, "add", 6, TRUE), CBS(4, "param", 1, "remove", 5, TRUE),
+                                   CBS(5, "group", 1, "nop", 0, TRUE), CBS(6, "group", 1, "removeSelf", 0, FALSE),
+                                   CBS(7, "all", 0, "remove", 2, TRUE), CBS(8, "all", 0, "nop", 0, TRUE)>>]
+OpsCbs == {Op("set", 1, I(9)), Op("read", 1, NoV), Op("read", 2, NoV)}
+
 \* ---- simulation: int16 / uint8 x2 / float / read-only uint16, more operations
 F(b) == [k |-> "f64", b |-> b]
 CfgS == [np |-> 5,
          type |-> <<8, 8, 1, 6, 9>>, ro |-> <<FALSE, FALSE, FALSE, FALSE, TRUE>>,
          pers |-> <<TRUE, TRUE, TRUE, FALSE, FALSE>>, group |-> <<1, 1, 2, 2, 2>>,
          init |-> <<<<6>>, <<7>>, <<254, 255>>, <<0, 0, 192, 63>>, <<1, 0>>>>,
-         updcbs |-> <<[id |-> 1, scope |-> "param", ref |-> 1], [id |-> 2, scope |-> "group", ref |-> 1],
-                      [id |-> 3, scope |-> "all", ref |-> 0], [id |-> 4, scope |-> "param", ref |-> 3],
-                      [id |-> 5, scope |-> "param", ref |-> 1]>>,
+         updcbs |-> <<CB(1, "param", 1), CB(2, "group", 1),
+                      CB(3, "all", 0), CB(4, "param", 3),
+                      CBS(5, "param", 1, "removeSelf", 0, TRUE), CBS(6, "param", 1, "nop", 0, TRUE),
+                      CBS(7, "group", 2, "add", 8, TRUE), CBS(8, "all", 0, "remove", 4, FALSE)>>,
          default |-> <<<<5>>, <<2>>, <<1, 0>>, <<0, 0, 128, 63>>, <<1, 0>>>>,
          stored0 |-> <<<<>>, <<8>>, <<>>, <<>>, <<>>>>]
 NotifsS == {[p |-> 1, v |-> <<3>>], [p |-> 3, v |-> <<0, 128>>], [p |-> 5, v |-> <<9, 9>>]}
@@ -52,7 +64,7 @@ CfgT == [np |-> 10,
          type |-> <<8, 9, 10, 11, 0, 1, 2, 3, 6, 7>>,
          ro |-> [p \in 1..10 |-> FALSE], pers |-> [p \in 1..10 |-> FALSE], group |-> [p \in 1..10 |-> 1],
          init |-> [p \in 1..10 |-> Zero(p)],
-         updcbs |-> <<[id |-> 1, scope |-> "all", ref |-> 0]>>,
+         updcbs |-> <<CB(1, "all", 0)>>,
          default |-> [p \in 1..10 |-> Zero(p)], stored0 |-> [p \in 1..10 |-> <<>>]]
 Pow(w) == [i \in 1..(w + 1) |-> IF i = w + 1 THEN 1 ELSE 0]            \* 2^(8w)
 Max(w) == [i \in 1..w |-> 255]                                         \* 2^(8w) - 1
